@@ -482,6 +482,7 @@ def run(ctx):
     ctx.rule("R-PANIC", "end-of-number-space arithmetic")
     ctx.rule("R-REG", "decision table of a comparison-only function equals the interval definition on every ordering")
     K.check_block_predicates(ctx, f)
+    check_sweeps(ctx, f)
     K.check_bool_table(ctx, f, "R-REG", "ca::provisioning::RequestResourceLimit::is_empty",
                        [(r"^Option::is_none\(self\.asn\)$", "asn"), (r"^Option::is_none\(self\.ipv4\)$", "v4"),
                         (r"^Option::is_none\(self\.ipv6\)$", "v6")],
@@ -627,6 +628,46 @@ def run(ctx):
         ctx.ob("R-PANIC", "AsRange::asn_count:full-range-overflow", not pan,
                "AsRange::asn_count cannot overflow (max − min + 1 fits u32)", where=ac.loc,
                detail=[p.describe() for p in pan][:2] or None)
+
+
+# ---------------------------------------------------------------------------------------------
+# C03.j — the sweeps over ascending block sequences, round by round (engine/sweep.py)
+
+SWEEPS = [
+    # (function, set operation it must compute, floor on interpreted rounds counted when armed)
+    ("Chain::<T>::contains_item", "member", 300),
+    ("Chain::<T>::is_encompassed", "subset", 3000),
+    ("Chain::<T>::difference", "difference", 3000),
+    ("Chain::<T>::trim", "intersection", 5000),
+]
+
+
+def check_sweeps(ctx, f):
+    from engine import sweep
+    ctx.rule("R-STEP", "every round of a sweep over ascending block sequences, interpreted over the order domain of its "
+                       "cursors' bounds (all placements incl. adjacency and both ends of the number space), consumes and emits "
+                       "exactly what the set operation allows; prologue and every way of ending the sweep included")
+    for fn, op, floor in SWEEPS:
+        name = CH + fn
+        b = f.body(name)
+        short_fn = fn.replace("::<T>", "")
+        if b is None:
+            ctx.missing("R-STEP", short_fn, name)
+            continue
+        ctx.saw_fn(name)
+        try:
+            sw = sweep.Sweep(f, b, op)
+            problems = sw.run()
+            rounds, states = sw.rounds, sw.states
+        except sweep.Unsupported as e:
+            problems, rounds, states = [{"problem": "cannot establish: %s" % e}], 0, 0
+        ctx.analysed["paths"] += rounds
+        ctx.ob("R-STEP", "%s:rounds" % short_fn, not problems,
+               "%s computes the %s of two ascending block sequences: %d abstract states, %d interpreted rounds, each admissible"
+               % (short_fn, {"member": "membership test", "subset": "subset test"}.get(op, op), states, rounds),
+               where=b.loc, detail=problems[:6] or None)
+        if not problems:
+            ctx.floor("R-STEP", short_fn + " rounds", rounds, floor)
 
 
 # ---------------------------------------------------------------------------------------------
